@@ -304,3 +304,29 @@ func (s *Sess) Both(m mocrelay.ClientMsg, sm mocrelay.ServerMsg) (forwarded []mo
 	forwarded = s.down.take()
 	return
 }
+
+// Burst hands all messages to the session back to back (a pipelining client: nothing is read
+// in between by the sender; the collector drains concurrently as a socket buffer would) and
+// returns what the downstream handler received and what came back before the barrier. The
+// replies are inspected only after the whole burst, as a writer goroutine that serialises
+// later than the middleware produced them would see them.
+func (s *Sess) Burst(msgs []mocrelay.ClientMsg) (forwarded []mocrelay.ClientMsg, replies []mocrelay.ServerMsg, err error) {
+	s.n++
+	bar := fmt.Sprintf("%s%d", barrierPrefix, s.n)
+	errc := make(chan error, 1)
+	go func() {
+		for _, m := range msgs {
+			if err := s.put(m); err != nil {
+				errc <- err
+				return
+			}
+		}
+		errc <- s.put(&mocrelay.ClientCloseMsg{SubscriptionID: bar})
+	}()
+	replies, err = s.collectUntil(bar)
+	if e := <-errc; e != nil && err == nil {
+		err = e
+	}
+	forwarded = s.down.take()
+	return
+}
